@@ -69,6 +69,7 @@ type fn struct {
 	rets     []ty
 	retBound int64
 	exported bool
+	named    bool // results are named (and grouped when adjacent types are equal)
 	unc      bool // may raise a fault NeoVM cannot catch (division by zero, shift, slice bounds)
 	mayPanic bool
 	impure   bool // writes globals / referents of its arguments
@@ -83,13 +84,20 @@ func (f *fn) sig() string {
 		p = append(p, a.name+" "+typeName(a.t, a.st))
 	}
 	var r []string
-	for _, t := range f.rets {
-		r = append(r, typeName(t, nil))
+	for i, t := range f.rets {
+		switch {
+		case !f.named:
+			r = append(r, typeName(t, nil))
+		case i+1 < len(f.rets) && f.rets[i+1] == t:
+			r = append(r, fmt.Sprintf("q%d", i)) // grouped: `q0, q1 int`
+		default:
+			r = append(r, fmt.Sprintf("q%d %s", i, typeName(t, nil)))
+		}
 	}
 	rs := ""
-	if len(r) == 1 {
+	if len(r) == 1 && !f.named {
 		rs = " " + r[0]
-	} else if len(r) > 1 {
+	} else if len(r) > 0 {
 		rs = " (" + strings.Join(r, ", ") + ")"
 	}
 	recv := ""
@@ -150,6 +158,7 @@ type gen struct {
 	swDepth   int
 	budget    int // statements left in the current function
 	forceDecl int
+	nmark     int
 
 	feat   map[string]bool
 	useInl map[string]bool
@@ -1533,7 +1542,7 @@ func (g *gen) switchStmt(depth int) {
 	g.swDepth++
 	for i, c := range cases {
 		g.w("%s", c)
-		g.block(1+g.r.Intn(2), depth-1)
+		g.block(1+g.r.Intn(3), depth-1)
 		if ft && i < len(cases)-1 && g.r.Intn(4) == 0 {
 			g.w("\tfallthrough")
 			g.f("fallthrough")
@@ -1545,8 +1554,19 @@ func (g *gen) switchStmt(depth int) {
 
 func (g *gen) branch() {
 	if len(g.loops) == 0 {
+		if g.swDepth > 0 {
+			restore := g.exprMode()
+			c := g.cond(1)
+			restore()
+			g.w("if %s {", c)
+			g.w("\tbreak")
+			g.w("}")
+			g.f("break-inside-switch")
+			g.mark()
+		}
 		return
 	}
+	defer g.mark()
 	restore := g.exprMode()
 	c := g.cond(1)
 	restore()
@@ -1613,6 +1633,12 @@ func (g *gen) callStmt(depth int) {
 	}
 	if len(f.rets) > 1 {
 		g.f("multi-return")
+	}
+	if g.r.Intn(3) == 0 {
+		// expression statement: every result is discarded
+		g.f("call-discarding-results")
+		g.w("%s", call)
+		return
 	}
 	var lhs []string
 	var nv []*vr
@@ -1761,7 +1787,103 @@ func (g *gen) ret(early bool) {
 			}
 		}
 	}
+	if f.named && !early && g.r.Bool() {
+		for i, v := range vals {
+			g.w("q%d = %s", i, v)
+		}
+		g.w("return")
+		return
+	}
 	g.w("return %s", strings.Join(vals, ", "))
+}
+
+// mark makes reaching this point visible in the result.
+func (g *gen) mark() {
+	g.nmark++
+	g.w("acc = (acc*31 + %d) %% %d", 100+g.nmark, modBig)
+}
+
+// afterNested follows a compound statement by a jump out of the enclosing
+// construct (and a mark): the target of a break / continue must be the one in
+// force before the nested statement.
+func (g *gen) afterNested() {
+	if (len(g.loops) > 0 || g.swDepth > 0) && g.r.Intn(2) == 0 {
+		g.f("branch-after-nested-statement")
+		g.branch()
+	}
+}
+
+// nest emits loop { switch { case: inner loop; break / continue; mark }; mark }
+// with every kind of inner loop.
+func (g *gen) nest(depth int) {
+	i := g.fresh("i")
+	n := 2 + g.r.Intn(3)
+	g.f("loop-switch-loop-branch")
+	switch g.r.Intn(3) {
+	case 0:
+		g.w("for %s := 0; %s < %d; %s++ {", i, i, n, i)
+	case 1:
+		g.w("for %s := range %d {", i, n)
+	default:
+		g.w("for %s := range %s {", i, g.intsLit(n, 100))
+	}
+	// the loop is not registered as a labelled target: statements nested in the
+	// cases use plain break / continue or labels of outer loops
+	g.ind++
+	g.w("_ = %s", i)
+	tagless := g.r.Bool()
+	if tagless {
+		g.w("switch {")
+	} else {
+		g.w("switch (acc + %s) %% 3 {", i)
+	}
+	g.swDepth++
+	nc := 2 + g.r.Intn(2)
+	dflt := g.r.Bool()
+	for ci := range nc {
+		switch {
+		case ci == nc-1 && dflt: // `default` last only, see "switch-with-early-default-reorders-clauses"
+			g.w("default:")
+		case tagless:
+			g.w("case (acc+%s)%%3 == %d:", i, ci)
+		default:
+			g.w("case %d:", ci)
+		}
+		g.ind++
+		j := g.fresh("j")
+		switch g.r.Intn(5) {
+		case 0:
+			g.w("for %s := 0; %s < %d; %s++ {", j, j, 1+g.r.Intn(3), j)
+		case 1:
+			g.w("for _, %s := range %s {", j, g.intsLit(1, 100))
+		case 2:
+			g.w("for %s := range %d {", j, 1+g.r.Intn(3))
+		case 3:
+			g.w("for %s := range %q {", j, strLits[1+g.r.Intn(len(strLits)-1)])
+		default:
+			g.w("for %s := range map[int]int{1: 2, 3: 4} {", j)
+		}
+		g.w("\tacc = (acc + %s%%7 + 1) %% %d", j, modBig)
+		g.w("}")
+		kw := []string{"break", "continue"}[g.r.Intn(2)]
+		g.w("if acc%%%d == %d {", 2+g.r.Intn(2), g.r.Intn(2))
+		g.w("\t%s", kw)
+		g.w("}")
+		g.mark()
+		if depth > 1 && g.r.Intn(3) == 0 {
+			g.lvl++
+			sv := len(g.scope)
+			g.stmt(depth - 2)
+			g.scope = g.scope[:sv]
+			g.lvl--
+		}
+		g.ind--
+	}
+	g.swDepth--
+	g.w("}")
+	g.mark()
+	g.ind--
+	g.w("}")
 }
 
 func (g *gen) stmt(depth int) {
@@ -1770,14 +1892,19 @@ func (g *gen) stmt(depth int) {
 	switch {
 	case x < 14:
 		g.declLocal(depth)
-	case x < 40:
+	case x < 38:
 		g.assign(depth)
+	case x < 40 && depth > 0:
+		g.nest(depth)
 	case x < 52 && depth > 0:
 		g.ifStmt(depth)
+		g.afterNested()
 	case x < 64 && depth > 0:
 		g.loop(depth)
+		g.afterNested()
 	case x < 72 && depth > 0:
 		g.switchStmt(depth)
+		g.afterNested()
 	case x < 80:
 		g.branch()
 	case x < 88:
@@ -1965,6 +2092,12 @@ func (g *gen) genFunc(p fnPlan) {
 			c.ro = true
 		}
 		g.scope = append(g.scope, &c)
+	}
+	if f.named {
+		for i, t := range f.rets {
+			g.push(&vr{name: fmt.Sprintf("q%d", i), t: t, bound: f.retBound})
+		}
+		g.f("named-results")
 	}
 	accB := modBig - 1
 	{
@@ -2336,7 +2469,13 @@ func genProgram(idx int, tuples int) *program {
 			}
 			f.params = append(f.params, v)
 		}
-		switch r.Intn(8) {
+		switch r.Intn(11) {
+		case 8:
+			f.rets = []ty{tInt, tInt}
+		case 9:
+			f.rets = []ty{tInt, tInt, tBool}
+		case 10:
+			f.rets = []ty{tBool, tBool}
 		case 0:
 			f.rets = []ty{tInt, tBool}
 		case 1:
@@ -2366,6 +2505,9 @@ func genProgram(idx int, tuples int) *program {
 		case 3:
 			plan.deferKind = 3 + r.Intn(2)
 		}
+		// named results only where no panic is recovered (see the directed case
+		// "named-result-after-recovered-panic")
+		f.named = len(f.rets) > 0 && !plan.recovers && r.Intn(2) == 0
 		g.genFunc(plan) // f is not callable from its own body except for the planned descent
 		g.funcs = append(g.funcs, f)
 		p.funcs = append(p.funcs, f)
